@@ -35,3 +35,12 @@ def masked_row_between_selected_rows_of_a_group(case):
         elif st == 2 and m:
             return True
     return False
+
+
+def arrow_chunked_keys_str_dt_or_int_null(case):
+    """C02/C12: pyarrow ChunkedArray keys of string/timestamp type, or ints with a null."""
+    if case.get("route") != "pa_chunked":
+        return False
+    base = case["kinds"][0].split("_")[0]
+    has_null = any(any(k < 0 for k in kt) for kt in case["w"])
+    return base in ("str", "dt") or (base == "int" and has_null)
